@@ -194,7 +194,7 @@ type guardCtx struct {
 	fired  atomic.Bool
 }
 
-func (g *guardCtx) Err() error {
+func (g *guardCtx) maybeFire() {
 	if !g.fired.Load() {
 		st, fin, _ := g.conn.counts()
 		if st == fin && st >= g.at {
@@ -203,7 +203,18 @@ func (g *guardCtx) Err() error {
 			g.cancel()
 		}
 	}
+}
+
+func (g *guardCtx) Err() error {
+	g.maybeFire()
 	return g.Context.Err()
+}
+
+// Done fires the scripted cancel too: an entry guard written as `select { case <-ctx.Done(): ... }`
+// (instead of `if ctx.Err() != nil`) consults the context through Done and must meet the same schedule.
+func (g *guardCtx) Done() <-chan struct{} {
+	g.maybeFire()
+	return g.Context.Done()
 }
 
 // ---------------------------------------------------------------------------------------------
@@ -1371,6 +1382,8 @@ func runStall(c *Ctx) (err error) {
 		names = append(names, fmt.Sprintf("%s=%d", s.name, len(traces[s.name])))
 	}
 	c.Res.Notes = append(c.Res.Notes, "I/O calls per subject: "+strings.Join(names, " "))
+	// blocking calls that take no context (the token issuer stalls inside a SCITOKENS handshake)
+	stallSciTokens(c, mat, seen)
 	// malformed operations: the oracle must refuse them
 	for _, bad := range []string{"run live 0 RW -D-", "run maybe 0 R -D-", "run live 2 R -D-", "run live 0 RQ 2x-D-", "run live 0 R -Q-", "run live 0 R", "stall 3", "run live 0 R 0y-D-"} {
 		cases = append(cases, Case{Label: "malformed op", Ops: []string{bad}, Real: []string{"bad-op"}})
